@@ -1,10 +1,68 @@
-// ---------- R8: opaque stand-ins for dependency types (no specifications attached) ----------
+// ---------- R8: stand-ins for dependency types ----------
 // rowan::TextRange / TextSize: the parser never branches on a range.
 #[derive(Clone, Copy)]
-struct TextRange { start: u32, end: u32 }
+pub struct TextRange { start: u32, end: u32 }
 #[derive(Clone, Copy)]
-struct TextSize { raw: u32 }
+pub struct TextSize { raw: u32 }
 #[verifier::external]
 impl From<u32> for TextSize { fn from(raw: u32) -> Self { TextSize { raw } } }
 #[verifier::external]
 impl TextRange { fn empty(at: TextSize) -> TextRange { TextRange { start: at.raw, end: at.raw } } }
+
+// ---------- rowan's green-tree builder, as far as Parser::build_tree uses it (assumed contracts on a dependency) ----------
+// The builder is specified by the TRACE of calls made on it (ghost view); what rowan makes of a trace is assumption (iii):
+// a trace with exactly one root node and balanced start/finish calls yields a tree whose leaves are the token() calls in order.
+mod rowan {
+    use vstd::prelude::*;
+    verus! {
+    pub struct SyntaxKind(pub u16);
+    }
+}
+pub enum BEv { Start(u16), Token(u16, Seq<char>), Finish }
+#[verifier::external_body]
+pub struct GreenNodeBuilder { _x: u8 }
+#[verifier::external_body]
+pub struct GreenNode { _x: u8 }
+impl View for GreenNodeBuilder { type V = Seq<BEv>; uninterp spec fn view(&self) -> Seq<BEv>; }
+impl View for GreenNode { type V = Seq<BEv>; uninterp spec fn view(&self) -> Seq<BEv>; }
+impl Default for GreenNodeBuilder {
+    #[verifier::external_body]
+    fn default() -> (r: Self) ensures r@ == Seq::<BEv>::empty() { GreenNodeBuilder { _x: 0 } }
+}
+impl GreenNodeBuilder {
+    #[verifier::external_body]
+    fn start_node(&mut self, kind: rowan::SyntaxKind) ensures final(self)@ == old(self)@.push(BEv::Start(kind.0)) {}
+    #[verifier::external_body]
+    fn token(&mut self, kind: rowan::SyntaxKind, text: &str) ensures final(self)@ == old(self)@.push(BEv::Token(kind.0, text@)) {}
+    #[verifier::external_body]
+    fn finish_node(&mut self) ensures final(self)@ == old(self)@.push(BEv::Finish) {}
+    // rowan: `assert_eq!(self.children.len(), 1)` - exactly one root, everything inside it
+    #[verifier::external_body]
+    fn finish(self) -> (r: GreenNode) requires single_root(self@) ensures r@ == self@ { GreenNode { _x: 0 } }
+}
+// text-size: `impl Index<TextRange> for str`
+#[verifier::external]
+impl std::ops::Index<TextRange> for str {
+    type Output = str;
+    fn index(&self, index: TextRange) -> &str { &self[index.start as usize..index.end as usize] }
+}
+pub uninterp spec fn str_slice(s: Seq<char>, r: TextRange) -> Seq<char>;
+impl vstd::std_specs::core::IndexSpecImpl<TextRange> for str {
+    open spec fn index_req(&self, r: &TextRange) -> bool { true }
+}
+pub assume_specification [ <str as std::ops::Index<TextRange>>::index ] (s: &str, r: TextRange) -> (o: &str)
+    ensures o@ == str_slice(s@, r);
+// meaning of the real `impl From<SyntaxKind> for rowan::SyntaxKind` (its body is verified against this)
+impl vstd::std_specs::convert::FromSpecImpl<SyntaxKind> for rowan::SyntaxKind {
+    open spec fn obeys_from_spec() -> bool { true }
+    open spec fn from_spec(k: SyntaxKind) -> Self { rowan::SyntaxKind(k as u16) }
+}
+// R11: `(a..b).take_while(|&i| f(i)).count()` - the standard library's meaning of take_while + count on a range
+pub open spec fn tw_idx(i: usize) -> bool { true }   // trigger marker
+#[verifier::external_body]
+fn verif_range_take_while_count<F: Fn(usize) -> bool>(a: usize, b: usize, f: F) -> (r: usize)
+    requires forall|i: usize| a <= i < b ==> f.requires((i,)),
+    ensures a <= b ==> a + r <= b, a > b ==> r == 0,
+        forall|i: usize| #![trigger f.ensures((i,), true)] #![trigger tw_idx(i)] a <= i < a + r ==> f.ensures((i,), true),
+        a + r < b ==> f.ensures(((a + r) as usize,), false),
+{ (a..b).take_while(|&it| f(it)).count() }
